@@ -84,7 +84,7 @@ def run_shard(binpath, shard, nshards, part, env, timeout, result):
     result[shard] = ("ok", rows, "\n".join(outputs), exhausted)
 
 
-def run_harness(out, hist_path, seed, nrand, ncur, narb, cursor_replay=None, race=False, nshards=4):
+def run_harness(out, hist_path, seed, nrand, ncur, narb, cursor_replay=None, race=False, nshards=4, cursor_how=None):
     """Builds the test binary once (go test -c through vlib.go_test, overlay) and runs it in nshards processes."""
     wd = vlib.scratch("c17bin-")
     binpath = os.path.join(wd, "c17.test")
@@ -95,6 +95,7 @@ def run_harness(out, hist_path, seed, nrand, ncur, narb, cursor_replay=None, rac
     env = {"VERIF_IN": hist_path, "VERIF_SEED": seed, "VERIF_RANDOM": nrand, "VERIF_CURSORS": ncur, "VERIF_CURSORN": narb}
     if cursor_replay:
         env["VERIF_CURSOR_REPLAY"] = ",".join(cursor_replay)
+        env["VERIF_CURSOR_HOW"] = cursor_how or "replay"
     result, threads = {}, []
     for i in range(nshards):
         t = threading.Thread(target=run_shard, args=(binpath, i, nshards, os.path.join(out, "obs_part%d.ndjson" % i), env, 1500, result))
@@ -187,7 +188,7 @@ def run(tier, seed, replay):
     phase("witnesses")
     # 2. histories
     hist_path = os.path.join(out, "histories.ndjson")
-    cursor_replay = None
+    cursor_replay = cursor_how = None
     if replay:
         rep = json.load(open(replay))["replay"]
         rows = []
@@ -195,7 +196,7 @@ def run(tier, seed, replay):
             rows = [{"id": "replay", "kind": KINDS.index(rep["kind"]), "ps": rep["ps"], "init": rep["init"],
                      "ops": rep["ops"], "uids": rep.get("uids", [])}]
         if rep.get("cursors"):
-            cursor_replay = rep["cursors"]
+            cursor_replay, cursor_how = rep["cursors"], rep.get("how")
         nrand = ncur = narb = 0
     else:
         rows = cover_histories(v, seed, tier)
@@ -204,7 +205,8 @@ def run(tier, seed, replay):
 
     phase("generate")
     # 3. run on the real code
-    obs, obs_rows, gout, exhausted = run_harness(out, hist_path, seed, nrand, ncur, narb, cursor_replay, race=(tier == "thorough"))
+    obs, obs_rows, gout, exhausted = run_harness(out, hist_path, seed, nrand, ncur, narb, cursor_replay, race=(tier == "thorough"),
+                                                      cursor_how=cursor_how)
     if "DATA RACE" in gout:
         v.violation("race", "data race reported by the race detector", {"output": gout[-3000:]})
     phase("go")
@@ -266,7 +268,7 @@ def run(tier, seed, replay):
             if not e["alive"] and e["err"] not in ("crash", "hang"):
                 got += "+dead"
             sig = "cursor=%s/%s:%s" % (e["cls"], e["op"], got)
-            rep = {"cursors": [e.get("raw", "")], "kind": head.get("kind"), "text": base64.b64decode(e.get("raw", "")).decode("latin-1")[:200]}
+            rep = {"cursors": [e.get("raw", "")], "how": e["op"], "kind": head.get("kind"), "text": base64.b64decode(e.get("raw", "")).decode("latin-1")[:200]}
         else:
             sig = "%s:%s" % (f["monfail"], e["ev"])
             if e.get("err") in ("crash", "hang"):
